@@ -379,30 +379,30 @@ func runC09(c *core.Ctx) {
 		if w.Hist%8 == 5 {
 			// a session held in a sub-directory: stage, commit, damage, restore -- all from there
 			sub := pickS(k.R, []string{"pkg", "work dir", "a/b"})
-			files := []string{"lib/a.txt", "lib/deep/b.txt", "lib/deep/c d.txt", "top.txt"}
+			files := []string{"zsub lib/a.txt", "zsub lib/deep/b.txt", "zsub lib/deep/c d.txt", "zsub top.txt"}
 			for _, f := range files {
 				w.Write(sub+"/"+f, k.content())
 			}
-			w.GoitIn(sub, "add", "lib", "top.txt")
+			w.GoitIn(sub, "add", "zsub lib", "zsub top.txt")
 			w.GoitIn(sub, "commit", "-m", "from a sub-directory")
 			switch k.R.IntN(3) {
 			case 0:
-				w.Edit("rmdir", sub+"/lib", nil)
+				w.Edit("rmdir", sub+"/zsub lib", nil)
 			case 1:
-				w.Edit("rm", sub+"/lib/deep/b.txt", nil)
-				w.Write(sub+"/lib/a.txt", []byte("changed\n"))
+				w.Edit("rm", sub+"/zsub lib/deep/b.txt", nil)
+				w.Write(sub+"/zsub lib/a.txt", []byte("changed\n"))
 			default:
-				w.Edit("rmdir", sub+"/lib/deep", nil)
-				w.Write(sub+"/top.txt", []byte("changed\n"))
+				w.Edit("rmdir", sub+"/zsub lib/deep", nil)
+				w.Write(sub+"/zsub top.txt", []byte("changed\n"))
 			}
 			w.Write(sub+"/untracked.txt", []byte("stays\n"))
 			switch k.R.IntN(3) {
 			case 0:
-				w.GoitIn(sub, "restore", "lib")
+				w.GoitIn(sub, "restore", "zsub lib")
 			case 1:
-				w.GoitIn(sub, "restore", "lib/deep/b.txt", "lib/a.txt")
+				w.GoitIn(sub, "restore", "zsub lib/deep/b.txt", "zsub lib/a.txt")
 			default:
-				w.GoitIn(sub, "restore", "lib/deep", "top.txt")
+				w.GoitIn(sub, "restore", "zsub lib/deep", "zsub top.txt")
 			}
 		}
 	})
